@@ -60,6 +60,11 @@ CHECKS = {
             'websocket advertised only if the upgrade attempted right afterwards is accepted, Set-Cookie exactly when configured with sid and attributes, '
             '401 (+ truthy value) and an unaddressable id for every rejecting connect outcome.',
             'Trusted: CrossHair, z3, the simulated environment. Integer settings are bounded because they are rendered in decimal; selector-only conditions run the scenario concretely per solver-enumerated selector tuple.', '§3 C11'),
+    'C13': (SIM + '; symbolic Origin header (allowed / truncated / foreign prefix + symbolic Unicode tail), selectors for cors_allowed_origins forms, credentials, X-Forwarded-* and request kind; independent allowed() predicate',
+            'For every Origin text inside the bound and every configuration / request kind in the tables, on both servers: a disallowed Origin is answered 400 '
+            '(websocket handshake rejected) with no event, no session and an untouched queue; allowed or absent origins are not refused; '
+            'Access-Control-Allow-Origin only echoes an allowed request origin; Allow-Credentials only when enabled; nothing with an empty allow-list.',
+            'Trusted: CrossHair string models, z3, the simulated environment, the json.dumps seam on the asyncio refusal message.', '§3 C13'),
 }
 
 NOT_BUILT = 'check not built yet in this round (see DESIGN.md §8 build order); not claimed until it runs'
